@@ -237,13 +237,13 @@ def _monitors(rep, extra, inconclusive, label, vic, tgts, secrets, wd, tracer, t
     for t in (tgts if (sfx == '' or thorough) else []):
         ss = secrets[t]
         if t in LARGE:
-            pick = [s for s in ss if s[0] in ('zero', 'ones')] + [s for s in ss if s[0].startswith('rnd')][:(14 if thorough else 1)]
+            pick = [s for s in ss if s[0] in ('zero', 'ones')] + [s for s in ss if s[0].startswith('rnd')][:((14 if sfx == '' else 5) if thorough else 1)]
             if replay:
                 pick = ss
             for i, s in enumerate(pick):
                 jobs.append((t, [s], 'j%03d' % i))
         else:
-            cap = len(ss) if (thorough or t in CMP) else 24
+            cap = (len(ss) if sfx == '' else 300) if (thorough or t in CMP) else 24      # single-stepping every secret on all seven builds would take hours
             pick = ss[:cap]
             # chunks of ~12 secrets to use the cores
             for i in range(0, len(pick), 12):
